@@ -49,6 +49,14 @@ impl Connect for VConnect {
     }
 }
 
+/// Removes the socket directory when the history is over.
+struct SockDir(std::path::PathBuf);
+impl Drop for SockDir {
+    fn drop(&mut self) {
+        let _ = std::fs::remove_dir_all(&self.0);
+    }
+}
+
 const CLEAN_SQL: &str = "CLOSE ALL; SET SESSION AUTHORIZATION DEFAULT; RESET ALL; UNLISTEN *; SELECT pg_advisory_unlock_all(); DISCARD TEMP; DISCARD SEQUENCES;";
 
 type Key = (String, Vec<u32>);
@@ -104,7 +112,9 @@ pub fn history(seed: u64, idx: u64) -> Case {
     };
     let n_ops = rng.range(5, 40) as usize;
     let linger = rng.chance(1, 3);
-    let config_desc = format!("max_size={} method={:?} connection_task_lingers={}", max_size, method, linger);
+    let via_config = rng.chance(1, 5);
+    let with_hook = rng.chance(1, 3);
+    let config_desc = format!("max_size={} method={:?} connection_task_lingers={} pool_built_from_config={} post_create_hook={}", max_size, method, linger, via_config, with_hook);
     let rt = tokio::runtime::Builder::new_current_thread().enable_all().build().expect("rt");
     let mut viol: Vec<Violation> = Vec::new();
     let mut log: Vec<String> = Vec::new();
@@ -115,8 +125,66 @@ pub fn history(seed: u64, idx: u64) -> Case {
         let finished: Arc<Mutex<HashMap<usize, Arc<AtomicBool>>>> = Arc::new(Mutex::new(HashMap::new()));
         let mut pgc = tokio_postgres::Config::new();
         let _ = pgc.user("u").dbname("d");
-        let mgr = Manager::from_connect(pgc, VConnect { server: server.clone(), finished: finished.clone(), linger }, ManagerConfig { recycling_method: method.clone() });
-        let pool: Pool = Pool::builder(mgr).max_size(max_size).build().expect("build");
+        // one history in five reaches its pool the way a deployment does: a `Config` (host = directory of a unix
+        // socket the scripted server listens on) with the recycling method in its manager section
+        // one history in three has a post_create hook that, when told to, caches a statement on the new client,
+        // keeps a handle on that client's cache and then rejects the client: the pool discards it, so the
+        // registry must not address it any more
+        let fail_next = Arc::new(AtomicBool::new(false));
+        let discarded: Arc<Mutex<Vec<Arc<deadpool_postgres::StatementCache>>>> = Arc::new(Mutex::new(Vec::new()));
+        let hook = {
+            let (fail_next, discarded) = (fail_next.clone(), discarded.clone());
+            deadpool_postgres::Hook::async_fn(move |client: &mut deadpool_postgres::ClientWrapper, _| {
+                let (fail_next, discarded) = (fail_next.clone(), discarded.clone());
+                Box::pin(async move {
+                    if fail_next.swap(false, Ordering::SeqCst) {
+                        let _ = client.prepare_cached("SELECT 'seen by the hook'").await;
+                        discarded.lock().unwrap().push(client.statement_cache.clone());
+                        return Err(deadpool_postgres::HookError::message("scripted rejection"));
+                    }
+                    Ok(())
+                })
+            })
+        };
+        let mut _sock: Option<SockDir> = None;
+        let mut _acc: Option<tokio::task::JoinHandle<()>> = None;
+        let pool: Pool = if via_config {
+            static DIRS: std::sync::atomic::AtomicU64 = std::sync::atomic::AtomicU64::new(0);
+            let dir = std::env::temp_dir().join(format!("vh-pg-{}-{}", std::process::id(), DIRS.fetch_add(1, Ordering::SeqCst)));
+            let _ = std::fs::remove_dir_all(&dir);
+            std::fs::create_dir_all(&dir).expect("socket dir");
+            let listener = tokio::net::UnixListener::bind(dir.join(".s.PGSQL.5432")).expect("unix listener");
+            let srv = server.clone();
+            _acc = Some(tokio::spawn(async move {
+                loop {
+                    let Ok((s, _)) = listener.accept().await else { break };
+                    let (k, st) = srv.new_conn();
+                    drop(tokio::spawn(serve(s, k, st, srv.clone())));
+                }
+            }));
+            let mut c = deadpool_postgres::Config::new();
+            c.host = Some(dir.to_string_lossy().into_owned());
+            c.port = Some(5432);
+            c.user = Some("u".into());
+            c.dbname = Some("d".into());
+            c.manager = Some(ManagerConfig { recycling_method: method.clone() });
+            c.pool = Some(deadpool_postgres::PoolConfig::new(max_size));
+            _sock = Some(SockDir(dir));
+            let b = c.builder(NoTls).expect("builder").runtime(deadpool_postgres::Runtime::Tokio1);
+            if with_hook { b.post_create(hook) } else { b }.build().expect("build")
+        } else {
+            let mgr = Manager::from_connect(pgc, VConnect { server: server.clone(), finished: finished.clone(), linger }, ManagerConfig { recycling_method: method.clone() });
+            let b = Pool::builder(mgr).max_size(max_size);
+            if with_hook { b.post_create(hook) } else { b }.build().expect("build")
+        };
+        // every cache the hook kept a handle on still holds the one statement the hook put there
+        let check_discarded = |viol: &mut Vec<Violation>, when: &str| {
+            for (i, c) in discarded.lock().unwrap().iter().enumerate() {
+                if c.size() != 1 {
+                    viol.push(Violation { prop: "C16", oracle: "registry_reached_discarded_client", msg: format!("{}: the cache of client number {} that a post_create hook rejected (and the pool discarded) holds {} statements instead of the 1 it had: the registry still addresses it", when, i, c.size()) });
+                }
+            }
+        };
         let mut held: Vec<(deadpool_postgres::Client, usize)> = Vec::new();
         let mut taken: Vec<(deadpool_postgres::ClientWrapper, usize)> = Vec::new();
         let mut keys: HashMap<usize, HashSet<Key>> = HashMap::new();
@@ -139,8 +207,18 @@ pub fn history(seed: u64, idx: u64) -> Case {
             // ------------------------------------------------ get
             if (x < 30 && held.len() < max_size) || (!last && held.is_empty() && x < 90) {
                 let fin_before: HashSet<usize> = (0..server.n_conns()).filter(|k| is_finished(*k)).collect();
+                let armed = with_hook && idle.is_empty() && rng.chance(1, 3);
+                if armed {
+                    fail_next.store(true, Ordering::SeqCst);
+                }
                 let r = tokio::time::timeout(Duration::from_secs(10), pool.get()).await;
+                let consumed = armed && !fail_next.swap(false, Ordering::SeqCst);
                 match r {
+                    Ok(Err(deadpool_postgres::PoolError::PostCreateHook(_))) if consumed => {
+                        log.push("get -> the post_create hook rejected the new client".into());
+                        *counters.entry("clients_rejected_by_hook".into()).or_insert(0) += 1;
+                        nontrivial = true;
+                    }
                     Err(_) => v!("get_hang", "get() with {} of {} clients out did not return within 10s", held.len(), max_size),
                     Ok(Err(e)) => v!("get_failed", "get() with {} of {} clients out failed: {:?}", held.len(), max_size, e),
                     Ok(Ok(c)) => match ident(&c).await {
@@ -200,6 +278,14 @@ pub fn history(seed: u64, idx: u64) -> Case {
                 continue;
             }
             if last {
+                pool.manager().statement_caches.clear();
+                check_discarded(&mut viol, "after statement_caches.clear() at the end");
+                let taken_ks: HashSet<usize> = taken.iter().map(|t| t.1).collect();
+                for (k, set) in keys.iter_mut() {
+                    if !taken_ks.contains(k) {
+                        set.clear();
+                    }
+                }
                 // ---- back to rest and capacity probe
                 for (c, k) in held.drain(..) {
                     let _ = return_seq.insert(k, server.seq.load(Ordering::SeqCst));
@@ -420,6 +506,7 @@ pub fn history(seed: u64, idx: u64) -> Case {
                     }
                     log.push(format!("registry {:?}", remove_key.as_ref().map(|k| &k.0)));
                     nontrivial = true;
+                    check_discarded(&mut viol, "after a registry call");
                     let taken_ks: HashSet<usize> = taken.iter().map(|t| t.1).collect();
                     for (k, set) in keys.iter_mut() {
                         if taken_ks.contains(k) {
@@ -452,7 +539,12 @@ pub fn history(seed: u64, idx: u64) -> Case {
                         continue;
                     }
                     let st = server.conn(k);
-                    if rng.chance(1, 2) || expected_check.is_none() {
+                    // (a pool built from a Config drives its connections itself: the harness cannot see when an
+                    // idle one has noticed the end of its socket, so there the trouble comes with the next check)
+                    if via_config && expected_check.is_none() {
+                        continue;
+                    }
+                    if !via_config && (rng.chance(1, 2) || expected_check.is_none()) {
                         st.lock().unwrap().kill = true;
                         for _ in 0..4000 {
                             if is_finished(k) {
@@ -478,13 +570,14 @@ pub fn history(seed: u64, idx: u64) -> Case {
                     let k = held[i].1;
                     let st = server.conn(k);
                     st.lock().unwrap().kill = true;
+                    let over = |c: &deadpool_postgres::Client| if via_config { c.is_closed() } else { is_finished(k) };
                     for _ in 0..4000 {
-                        if is_finished(k) {
+                        if over(&held[i].0) {
                             break;
                         }
                         tokio::time::sleep(Duration::from_micros(250)).await;
                     }
-                    if is_finished(k) {
+                    if over(&held[i].0) {
                         log.push(format!("server closed checked-out conn {}", k));
                         let _ = dead.insert(k);
                         *counters.entry("server_faults".into()).or_insert(0) += 1;
